@@ -88,3 +88,14 @@ pub fn stub_pattern_encode_cut(
 pub fn stub_pattern_new_cut(_p: &str) -> log4rs::encode::pattern::PatternEncoder {
     crate::sym::cut()
 }
+
+/// Unicode classification of non-ASCII scalars (`char::is_alphabetic` / `is_alphanumeric` fall
+/// back to table searches - a binary search plus a run-length walk - which the symbolic executor
+/// explores for every character it cannot prove to be ASCII).  For harnesses whose texts are
+/// ASCII the fallback is unreachable; that is asserted, then the path ends.
+#[cfg(kani)]
+pub fn stub_unicode_lookup_cut(_c: char) -> bool {
+    // checked, not assumed: if a non-ASCII scalar could reach the classification the run fails
+    assert!(false, "harness texts are ASCII: the Unicode table fallback is unreachable");
+    crate::sym::cut()
+}
